@@ -874,7 +874,6 @@ def knownSites : List (String × SiteClass) := [
   ("types/transaction.go:ValidateSystemTx:index:unique[encoded]#1", mapIdx),
   ("types/transaction.go:ValidateSystemTx:index:unique[encoded]#2", mapIdx),
   ("types/transaction.go:ValidateSystemTx:index:unique[encoded]#3", mapIdx),
-  ("types/transaction.go:validateNameTx:assert:ci.Args[1].(string)", trap tNameUpdTo),
   ("types/transaction.go:validateNameTx:index:ci.Args[1]", trap tNameUpdTo),
   ("types/transaction.go:validateNameTx:index:ci.Args[0]", trap tNameOwner0),
   ("types/transaction.go:_validateNameTx:index:ci.Args[0]", trap tNameCommon0),
@@ -939,12 +938,12 @@ def knownSites : List (String × SiteClass) := [
   ("contract/name/name.go:deserializeNameMap:slice:data[offset:next]#1", stateData),
   ("contract/name/name.go:deserializeNameMap:slice:data[offset:next]#2", stateData),
   ("contract/name/name.go:deserializeNameMap:slice:data[offset:next]#3", stateData),
-  ("contract/enterprise/validate.go:ValidateEnterpriseTx:assert:ci.Args[0].(string)", trap eAdmin0),
   ("contract/enterprise/validate.go:ValidateEnterpriseTx:index:ci.Args[0]", trap eAdmin0),
   ("contract/enterprise/validate.go:ValidateEnterpriseTx:index:ci.Args[0]#1", dom eAdmin0),
   ("contract/enterprise/validate.go:ValidateEnterpriseTx:index:ci.Args[0]#2", dom eAdmin0),
   ("contract/enterprise/validate.go:ValidateEnterpriseTx:index:ci.Args[0]#3", dom eAdmin0),
   ("contract/enterprise/validate.go:ValidateEnterpriseTx:index:ci.Args[0]#4", dom eAdmin0),
+  ("contract/enterprise/validate.go:ValidateEnterpriseTx:index:ci.Args[0]#5", dom eAdmin0),
   ("contract/enterprise/validate.go:ValidateEnterpriseTx:index:context.Args[0]", trap eCtx0),
   ("contract/enterprise/validate.go:ValidateEnterpriseTx:slice:context.Args[1:]", trap eCtxTail),
   ("contract/enterprise/validate.go:ValidateEnterpriseTx:index:context.Args[0]#1", trap eCtx0),
@@ -954,13 +953,12 @@ def knownSites : List (String × SiteClass) := [
   ("contract/enterprise/validate.go:ValidateEnterpriseTx:index:context.Args[1]#1", dom eCtx1),
   ("contract/enterprise/validate.go:ValidateEnterpriseTx:index:context.Args[1]#2", trap eCtx1),
   ("contract/enterprise/validate.go:ValidateEnterpriseTx:index:context.Args[1]#3", dom eCtx1),
-  ("contract/enterprise/validate.go:ValidateEnterpriseTx:index:ci.Args[0]#5", trap eEnable0),
-  ("contract/enterprise/validate.go:ValidateEnterpriseTx:index:enterpriseKeyDict[strings.ToUpper(ci.Args[0].(string))]", mapIdx),
-  ("contract/enterprise/validate.go:ValidateEnterpriseTx:assert:ci.Args[0].(string)#1", trap eEnable0),
   ("contract/enterprise/validate.go:ValidateEnterpriseTx:index:ci.Args[0]#6", trap eEnable0),
-  ("contract/enterprise/validate.go:ValidateEnterpriseTx:index:ci.Args[0]#7", dom eEnable0),
+  ("contract/enterprise/validate.go:ValidateEnterpriseTx:index:enterpriseKeyDict[strings.ToUpper(ci.Args[0].(string))]", mapIdx),
+  ("contract/enterprise/validate.go:ValidateEnterpriseTx:assert:ci.Args[0].(string)", trap eEnable0),
+  ("contract/enterprise/validate.go:ValidateEnterpriseTx:index:ci.Args[0]#7", trap eEnable0),
+  ("contract/enterprise/validate.go:ValidateEnterpriseTx:index:ci.Args[0]#8", dom eEnable0),
   ("contract/enterprise/validate.go:ValidateEnterpriseTx:index:ci.Args[1]", trap eEnable1),
-  ("contract/enterprise/validate.go:checkArgs:assert:ci.Args[0].(string)", trap eCheckArgs0),
   ("contract/enterprise/validate.go:checkArgs:index:ci.Args[0]", trap eCheckArgs0),
   ("contract/enterprise/validate.go:checkArgs:index:enterpriseKeyDict[key]", mapIdx),
   ("contract/enterprise/validate.go:checkArgs:index:ci.Args[0]#1", dom eCheckArgs0),
